@@ -402,7 +402,7 @@ func main() {
 		runs = append(runs, run{"users3/direct", 2}, run{"users3/tcpmux", 2})
 	}
 	for i, r := range runs {
-		c.Explore(r.s, r.b, 1.0/float64(len(runs)-i))
+		c.ExploreBoth(r.s, r.b, 1.0/float64(len(runs)-i))
 	}
 	c.Finish()
 }
